@@ -66,6 +66,30 @@ def check(chk, ex, found):
         ex.npz_members = None
     ml = ex.func("countmin", "load")
     _wrappers.row(chk, "countmin.load:no-exception-handler", not handlers_in(ml.node), None, found)
+    # the module-level loader opens the file it was given - and only that file - on its way to the
+    # class loader (a path derived from the argument could name another, complete file)
+    for cls in ("CountMinLinear", "CountMinLog16", "CountMinLog8"):
+        a, objs, _ = _glue.good_objects(ex, cls, "ml")
+        if not objs:
+            continue
+        sref, st0 = objs[0]
+        fn = Sym(z3.Int("filename"), "str")
+        outs = [(o, e) for o, e in _glue.call_method(ex, st0.fork(), sref, "save", [fn]) if o.kind == "return"]
+        if not outs:
+            continue
+        ex.npz_members = [e for e in outs[0][1] if e[0] == "savez"][0][2]
+        try:
+            st = outs[0][0].state.fork()
+            n0 = len(st.effects)
+            louts = ex.call_function(ml, [fn, Const(False)], {}, st)
+        finally:
+            ex.npz_members = None
+        for lo in louts:
+            if lo.kind != "return":
+                continue
+            le = lo.state.effects[n0:]
+            opened = [lo.state.objs[e[1]]["fields"].get("file") for e in le if e[0] == "np.load"]
+            _wrappers.row(chk, "countmin.load[%s file]:opens-exactly-the-file-it-was-given" % cls, bool(opened) and all(x is fn for x in opened), [repr(x) for x in opened], found)
 
 
 def prefix_oracle(chk, quick):
